@@ -1833,6 +1833,8 @@ pub fn replay(ctx: &mut Ctx, case: &serde_json::Value) {
 }
 
 pub fn run(ctx: &mut Ctx) {
+    // functions translated from the Rust source (Gen/PureFns): translation vs real code
+    crate::purefns::check_tinyset(ctx, if ctx.thorough() { 4000 } else { 300 });
     std::panic::set_hook(Box::new(|info| {
         if let Ok(mut s) = LAST_PANIC.lock() {
             *s = info.to_string().chars().take(300).collect();
